@@ -27,7 +27,7 @@ func InvalidHeaderValue(h *spec.Header, variant int) (string, bool) {
 	pickv := func(xs ...string) string { return xs[variant%len(xs)] }
 	switch h.Type {
 	case "integer":
-		return pickv("abc", "1.5", "1e3", "12a", "\xff12", "caf\xe9"), true
+		return pickv("abc", "1.5", "1e3", "12a", "\xff12", "caf\xe9", "0x10", "1.0", "0b101"), true
 	case "number":
 		return pickv("abc", "--1", "1,5", "1.\xfe"), true
 	case "boolean":
